@@ -177,6 +177,7 @@ class Check:
     QUICK_S = 60
     THOROUGH_S = 900
     CHUNK = 50                         # initial runs per chunk
+    CANARY_N = 6                       # runs executed twice in-process by the determinism canary of every check run
 
     def setup(self, tier):             # called once in the parent before workers fork
         pass
@@ -493,7 +494,7 @@ def drive(check, tier, seed, budget_s=None, workers=None, log=print):
 
     # 2. determinism canary: a handful of run seeds executed twice in this process must give identical digests
     canary = 'pass'
-    for i in range(6):
+    for i in range(check.CANARY_N):
         rs = run_seed(seed, check.ID, i)
         p1 = check.gen_plan(random.Random(rs), tier)
         p2 = check.gen_plan(random.Random(rs), tier)
